@@ -316,7 +316,10 @@ func (ir *ifdReader) readMakerNotes(t Tag) {
 			if nikon.IsNikonMkNoteHeaderBytes(buf[:5]) {
 				ir.Exif.ImageType = imagetype.ImageNEF
 				if byteOrder := utils.BinaryOrder(buf[10:14]); byteOrder != utils.UnknownEndian {
+					// the directory lies in what is left of the note (see Canon above)
+					ir.ifdLimit = t.UnitCount - 18
 					err = ir.readIfdHeader(ifds.NewIFD(byteOrder, ifds.MknoteIFD, t.IfdIndex, t.ValueOffset, t.ValueOffset+byteOrder.Uint32(buf[14:18])))
+					ir.ifdLimit = 0
 					if err != nil {
 						ir.logError(err).Send()
 					}
